@@ -113,7 +113,10 @@ def streams(tier, rng, P, only=None, cases=None):
                                        # the same song-level command written on two tracks at the same tick is written on both
                                        ("TR=1 Tempo=100 c TR=2 Tempo=100 e", "TR=2 Tempo=100 e", 2), ("TR=2 Tempo=100 e TR=1 Tempo=100 c", "TR=1 Tempo=100 c", 1),
                                        ("TR=1 l4 c Tempo=90 d TR=3 l4 r Tempo=90 e", "TR=3 l4 r Tempo=90 e", 3), ("TR=1 TimeSignature=3,4 c TR=2 TimeSignature=3,4 d", "TR=2 TimeSignature=3,4 d", 2),
-                                       ("TR=1 TrackName={\"x\"}; c TR=2 TrackName={\"x\"}; d", "TR=2 TrackName={\"x\"}; d", 2), ("TR=1 y7,100; c TR=2 CH=2 y7,100; d", "TR=2 CH=2 y7,100; d", 2)]):
+                                       ("TR=1 TrackName={\"x\"}; c TR=2 TrackName={\"x\"}; d", "TR=2 TrackName={\"x\"}; d", 2), ("TR=1 y7,100; c TR=2 CH=2 y7,100; d", "TR=2 CH=2 y7,100; d", 2),
+                                       # a track's own transposition, under each of its names, stays with the track
+                                       ("TR=1 TR_KEY(3) c TR=2 c", "TR=2 c", 2), ("TR=2 c TR=1 TR_KEY(3) c TR=2 d", "TR=2 c TR=2 d", 2), ("TR=1 TrackKey=2 e TR=3 e", "TR=3 e", 3),
+                                       ("TR=1 TrackKey(5) c TR=2 TR_KEY(-2) d TR=1 e", "TR=1 TrackKey(5) c TR=1 e", 1), ("TR=3 TR_KEY(1) n60 TR=1 n60", "TR=1 n60", 1)]):
             cs.append(dict(req="run2 %s %s" % (hx(a), hx(b)), src=a, src2=b, show=a, k=k, ntr=2, key="afixed%d" % j))
         return cs
     def alone_judge(c, impl, m):
